@@ -104,7 +104,8 @@ COVERAGE = [
 		 'signer_pending_channel_ready': SIG, 'signer_pending_stale_state_verification': SIG, 'last_sent_closing_fee': SIG, 'last_received_closing_sig': SIG,
 		 'pending_counterparty_closing_signed': SIG, 'closing_fee_limits': SIG, 'expecting_peer_commitment_signed': SIG, 'closing_signed_in_flight': SIG,
 		 'workaround_lnd_bug_4006': SIG, 'funding_locked_txid_sent_in_reestablish': SIG, 'sent_message_awaiting_response': SIG}),
-	(L + 'ln::channel::FundingScope', [W(L + 'ln::channel::FundedChannel'), W(L + 'ln::channel::FundingScope')], {}),
+	(L + 'ln::channel::FundingScope', [W(L + 'ln::channel::FundedChannel'), W(L + 'ln::channel::FundingScope')],
+		{'holder_prev_commitment_tx_balance': 'cfg(debug_assertions)-only self-check bookkeeping (absent from release builds)', 'counterparty_prev_commitment_tx_balance': 'cfg(debug_assertions)-only self-check bookkeeping'}),
 	(L + 'ln::channel::FundedChannel', [W(L + 'ln::channel::FundedChannel')], {'quiescent_action': SIG}),
 	(L + 'ln::channel::InboundHTLCOutput', [W(L + 'ln::channel::FundedChannel')], {}),
 	(L + 'ln::channel::OutboundHTLCOutput', [W(L + 'ln::channel::FundedChannel')], {'send_timestamp': 'hold-time measurement only; not meaningful across restarts'}),
